@@ -68,7 +68,7 @@ PROPS = {
              "hash of the model state after a non-trivial step (sort of >= 3 members or a judged mutation of a sorted object)",
              [SIM_ALLOC], probes=["sorted", "sort_duplicate_keys"]),
 
-    "C08": P("asan", "fault_enumeration", (8000, 30), (400000, 480),
+    "C08": P("asan", "fault_enumeration", (14000, 30), (400000, 480),
              "a scenario is a fault-free prefix history (2-25 steps), one target call (parse entry points, print variants, every create*, bulk constructors, Add*ToObject helpers, AddItemToObject, AddItemReferenceTo*, Duplicate, ReplaceItemInObject*, SetValuestring growing) and a fault-free suffix; the target is first run fault-free to count its n allocation requests, then the scenario is replayed once per k in 1..n with request k refused (custom malloc, or default malloc/realloc). Oracles: the call completes normally or returns its documented failure value; on failure the ledger live set equals the one before the call, every pre-existing root passes the structural walk and prints the same two texts; the suffix runs without crash and the final ledger is balanced. Distinct by (target call kind, k, allocator side, outcome); non-trivial when k >= 2.",
              "(target call kind, k, allocator side, outcome) tuples with k >= 2",
              [SIM_ALLOC, SIM_IN], probes=["failed_cleanly", "completed_despite_failure"], hang_s=120),
